@@ -433,3 +433,35 @@ def assoc_enum_guard(P, guards, assoc_path, adt, key=None, depth=0):
                     if len(rest) == 1:
                         return rest[0]
     return None
+
+
+def push_wrappers(P, entry_adt="chess_movegen::iter::LegalMovesAt"):
+    """{non-pub function of chess_movegen that pushes exactly one move-list entry per call (one unchecked push, outside every loop, no other pushing
+    call): index of the parameter that becomes the entry's `moves`} - a call of such a helper is a push site of its caller."""
+    from .cfg import cfg_of
+    is_push = lambda t: "push_unchecked" in t["f"].get("fn", "") or (t["f"].get("fn", "").endswith("::push") and "ArrayVec" in t["f"].get("fn", ""))
+    out = {}
+    for k, body in P.fns.items():
+        if body["crate"] != "chess_movegen" or "::promoted" in k or "::{" in k or body.get("vis") == "pub":
+            continue
+        ps = [(bi, t) for bi, t in P.calls(k) if is_push(t)]
+        if len(ps) != 1 or cfg_of(body).in_loop(ps[0][0]) or cfg_of(body).loops():
+            continue
+        bi, t = ps[0]
+        if len(t["a"]) < 2 or t["a"][1].get("k") not in ("copy", "move"):
+            continue
+        idx = None
+        for kind, b2, d in local_defs(body, t["a"][1]["p"]["l"]):
+            if kind == "stmt" and d["r"].get("k") == "agg" and d["r"].get("adt") == entry_adt:
+                ops = dict(zip(d["r"]["fields"], d["r"]["ops"]))
+                mo = ops.get("moves")
+                if mo and mo.get("k") in ("copy", "move"):
+                    os_ = origins(P, body, mo["p"]["l"])
+                    prm = [o for o in os_ if o[0] == "param"]
+                    if len(os_) == 1 and prm:
+                        names = [l.get("n") for l in body["locals"][1:body["argc"] + 1]]
+                        if prm[0][1] in names:
+                            idx = names.index(prm[0][1])
+        if idx is not None:
+            out[k] = idx
+    return out
